@@ -14,6 +14,7 @@ var tempName = regexp.MustCompile(`\.t\d+`)
 // reviewed by hand (function|access with SSA temporaries stripped -> argument). They are
 // reported as notes, not as discharged obligations: nothing is claimed for them.
 var laManual = map[string]string{
+	"types.ParseAuditLogParts|opts[1:len-1]":                                                                               "reached only when opts starts with \"A\" and ends with \"Z\": a one-byte string cannot do both, so len(opts) >= 2",
 	"internal/corazawaf.(*Rule).doEvaluate|*matchedValues[0]":                                                              "the function returns earlier when len(matchedValues)==0 and the slice only grows afterwards; the guard speaks about an earlier SSA version of the accumulator",
 	"internal/operators.(*indexedMatcher).matchCI|s[slice-lo=((*i - m.minLen) + 1)]":                                       "Horspool window: i starts at minLen-1 and only increases, the upper bound pos+nlen<=len(s) is tested",
 	"internal/operators.(*indexedMatcher).matchCS|s[slice-lo=((*i - m.minLen) + 1)]":                                       "Horspool window: i starts at minLen-1 and only increases, the upper bound pos+nlen<=len(s) is tested",
